@@ -76,6 +76,7 @@ def case(draw):
     c = {"lang": lang, "kind": kind, "pipes": pipes, "logging": lang == "yaml" and draw(st.booleans()), "extra": lang == "yaml" and draw(st.booleans()),
          "beats": draw(st.sampled_from([2, 5])), "flow": draw(st.booleans()), "pause_ms": pause, "plugin_section": lang == "yaml" and draw(st.booleans()),
          "cli": draw(st.sampled_from([[], [], ["--log-level", "DEBUG"], ["--log-level", "warning"], ["--log-journal"]]))}
+    c["stem"] = draw(st.sampled_from(["config", "config", "cobald", "trio", "yaml", "logging", "toposort", "my.site-config"]))
     services = [e for p in pipes for e in p if e["cls"] in SERVICES]
     if kind == "valid-fail":
         services = [e for e in services if e["cls"] not in ("FxGc", "FxSvcParked")]  # these never fail on request
@@ -84,7 +85,7 @@ def case(draw):
         else:
             victim = draw(st.sampled_from(services))
             victim["kw"]["fail_after"] = draw(st.sampled_from([1, 3, 8]))
-            victim["kw"]["fail_kind"] = draw(st.sampled_from(["raise", "return"]))
+            victim["kw"]["fail_kind"] = draw(st.sampled_from(["raise", "return", "base", "exit"]))
             c["victim"] = victim["name"]
     if kind == "invalid":
         options = [i for i in INVALID if (lang == "yaml") == (not i.startswith("py-"))]
@@ -183,7 +184,9 @@ def py_text(c):
 def run_case(c) -> Result:
     res = Result()
     inv = c.get("invalid")
-    name = {"ext-txt": "config.txt", "ext-json": "config.json", "ext-none": "config"}.get(inv, "config.yaml" if c["lang"] == "yaml" else "config.py")
+    # the file may be called like a module the daemon needs; it lives in a sub-directory that is not on the module search path
+    stem = c.get("stem", "config")
+    name = {"ext-txt": "config.txt", "ext-json": "config.json", "ext-none": "config"}.get(inv, "conf/" + stem + (".yaml" if c["lang"] == "yaml" else ".py"))
     d = Daemon(name, "", extra_args=c.get("cli", []), create=False, trace_delay=c.get("trace_delay"))
     try:
         text = yaml_text(c, d.log) if c["lang"] == "yaml" else py_text(c)
@@ -287,6 +290,7 @@ def run_case(c) -> Result:
     nsvc = sum(1 for p in c["pipes"] for e in p if e["cls"] in SERVICES)
     res.cls("lang:" + c["lang"], "kind:" + c["kind"] + (":" + inv if inv else ""), "services:%d" % min(nsvc, 4), "flavours:%d" % len(flavours),
             "pipes:%d" % len(c["pipes"]), "logging:" + str(c["logging"]))
+    res.cls("file-name:" + ("plain" if c.get("stem", "config") == "config" else "like-a-module"))
     res.nontrivial = len(flavours) >= 2 or (c["kind"] == "valid-fail" and nsvc >= 2) or (inv is not None and inv != "missing-file")
     return res
 
